@@ -103,7 +103,7 @@ Proof. intros H H'. apply parse_q_complete in H, H'. congruence. Qed.
 (* ---------------------------------------------------------------- the range check (generated) *)
 Lemma q_out_of_range_spec q : q_out_of_range q = false <-> q_in_range q.
 Proof.
-  unfold q_out_of_range, q_in_range. fold zero. fold one. rewrite orb_false_iff, !qltb_false. tauto.
+  unfold q_out_of_range, g_q_out_of_range, q_in_range. fold zero. fold one. rewrite orb_false_iff, !qltb_false. tauto.
 Qed.
 
 Lemma q_default_one : q_default = one.
@@ -218,10 +218,18 @@ Proof.
   destruct (is_nil (strip uni_ws v) || is_nil (strip uni_ws match r with Some x => x | None => [] end)); [discriminate|].
   set (rest := strip uni_ws match r with Some x => x | None => [] end).
   destruct (opt_loop_fuel (S (length rest)) rest [] (Nat.lt_succ_diag_r _)) as (parts & ->).
-  assert (H : forall ps o, process_parts ps o <> Err OutOfFuel).
-  { induction ps as [|[pk pv] t IH]; intro o; cbn [process_parts]; [discriminate|].
-    destruct (last_is STAR pk); [discriminate|]. destruct (continuation_split pk); apply IH. }
-  specialize (H parts []). destruct (process_parts parts []); [discriminate | congruence].
+  assert (H : forall ps o e c, process_parts ps o e c <> Err OutOfFuel).
+  { induction ps as [|[pk pv] t IH]; intros o e c; cbn [process_parts]; [discriminate|].
+    assert (Hs : forall pv e c, star_value pv e c <> Err OutOfFuel).
+    { intros pv0 e0 c0. unfold star_value.
+      destruct (charset_match pv0) as [[e1 v1]|]; cbv beta iota zeta;
+        repeat first [ discriminate
+                     | match goal with |- context [match ?x with _ => _ end] => destruct x end ]. }
+    destruct (last_is STAR pk).
+    - specialize (Hs pv e c). destruct (star_value pv e c) as [[[pv0 e' ] c']|er]; [|congruence].
+      destruct (is_nil pv0); [discriminate|]. destruct (continuation_split (removelast pk)); apply IH.
+    - destruct (is_nil pv); [discriminate|]. destruct (continuation_split pk); apply IH. }
+  specialize (H parts [] None None). destruct (process_parts parts [] None None); [discriminate | congruence].
 Qed.
 
 Lemma accept_items_fuel value : accept_items value <> Err OutOfFuel.
